@@ -37,8 +37,13 @@ vec_CgroupContext vec_CgroupContext__copy(vec_CgroupContext v)
 CgroupContext vec_CgroupContext__elem(uint64_t vid, uint64_t i)
 { if (g_copied && vid == g_copy_vid) return g_sorted ? __CPROVER_uninterpreted_elem_sorted(i) : ELEM(g_copy_src, i); return ELEM(vid, i); }
 
+#ifndef KEY_PRE
+#define KEY_PRE(k, c) 1      /* the key functor is total (never throws) */
+#endif
 #define SORT_CONTRACT(k) \
   __CPROVER_requires(cgroups.n <= VEC_MAX && !g_sorted && ghost_exc == 0) \
+  /* no try/catch around the sort: the key functor must be defined on every element handed in */ \
+  __CPROVER_requires(g_w >= cgroups.n || KEY_PRE(k, ELEM(cgroups.vid, g_w))) /*@C09,C10*/ \
   __CPROVER_requires(g_w >= cgroups.n || (KEY_OK(KEYF(k, ELEM(cgroups.vid, g_w))))) \
   __CPROVER_requires(g_s0 >= cgroups.n || (KEY_OK(KEYF(k, ELEM(cgroups.vid, g_s0))))) \
   __CPROVER_assigns(g_copied, g_sorted, g_copy_vid, g_copy_src) \
@@ -57,6 +62,7 @@ uint64_t g_fs0, g_fw;
   { vec_CgroupContext r; r.vid = nondet_u64(); r.n = nondet_u64(); __CPROVER_assume(r.vid != v.vid && r.n <= v.n); \
     if (g_s0 < r.n) { CgroupContext c = vec_CgroupContext__elem(v.vid, g_fs0); __CPROVER_assume(g_fs0 < v.n && ELEM(r.vid, g_s0) == c); __CPROVER_assume(PREDCALL(c)); } \
     if (g_fw < v.n) { CgroupContext c = vec_CgroupContext__elem(v.vid, g_fw); if (PREDCALL(c)) __CPROVER_assume(g_w < r.n && ELEM(r.vid, g_w) == c); } \
+    if (g_w < r.n) { CgroupContext c = ELEM(r.vid, g_w); __CPROVER_assume(PREDCALL(c)); }   /* every kept element satisfies the predicate */ \
     return r; }
 #define Util__filter__vec_CgroupContext_lambda_t(v, pred) ghost_filter__##pred(v)
 /* call sites pass the lifted key lambda by name; its identity becomes the functor handle */
